@@ -99,6 +99,18 @@ def datasets(shard):
                     yield kind, [dc.datum((tv, w, "ab")), dc.datum((o, 55, None))]
                 # an explicit width of 0 (with and without text) is a width, not "no width"
                 yield kind, [dc.datum((tv, 0, None)), dc.datum((o, 20, "ab")), dc.datum((o, 0, "x"))]
+        # numeric times of large magnitude and small span (epoch seconds; Julian days): the derived axis must still cover them
+        for base, offs in ((1.7e9, (-0.8, 12.25, 93.7)), (1.0e8, (0.0, 1.3, 2.5)), (2460310.25, (0.0, 2.5, 4.75)), (1.0e12, (0.5, 250.0, 999.5))):
+            yield "lin", [dc.datum((base + o, 30, None)) for o in offs]
+            yield "lin", [dc.datum((base + o, 30, "ab")) for o in offs[::-1]]
+
+
+def _inside_fixed_domain(kind, data):
+    lo, hi = dc.LIN_DOMAIN if kind == "lin" else dc.DT_DOMAIN
+    try:
+        return all(lo <= draw.to_instant(d["time"]) <= hi for d in data)
+    except TypeError:
+        return False
 
 
 def plan(tier, seed):
@@ -122,8 +134,8 @@ def run_shard(shard):
             continue
         acc.states += 1
         for ci, cfg in enumerate(cfgs):
-            if shard["kind"] == "clock" and cfg[1]:
-                continue  # the explicit domain is a fixed date range; clock data live on today's date
+            if cfg[1] and (shard["kind"] == "clock" or not _inside_fixed_domain(kind, data)):
+                continue  # the explicit domain is a fixed range: only for data it covers (clock data live on today's date)
             for backend in ("svg", "tex"):
                 case = {"kind": kind, "data": data, "cfg": list(cfg), "backend": backend}
                 bad = judge(case, acc)
